@@ -4,8 +4,9 @@
 description + what was run to confirm it + what the checks reported with it applied."""
 import json, os, shutil, sys
 P, N = sys.argv[1], sys.argv[2]
-O = "/tmp/mut/out/%s" % P
-D = "/verif/seeded/%s-%s" % (P, N)
+O = "%s/%s" % (os.environ.get("MUT_O", "/tmp/mut/out"), P)
+SN = str(int(N) + int(os.environ.get("SEED_OFFSET", "0")))
+D = "/verif/seeded/%s-%s" % (P, SN)
 conf = json.load(open("%s/confirm_%s.json" % (O, N)))
 if not conf.get("confirmed"):
     sys.exit("not confirmed: %s %s" % (P, N))
@@ -31,7 +32,7 @@ if os.path.exists(dp):
         d["lines"] = [l for l in al if not l.startswith("VIOLATION") and not l.startswith("KNOWN-FINDING")][:4] + [l for l in al if l.startswith("VIOLATION")][:3]
 out = {
     "property": P,
-    "seed": "%s-%s" % (P, N),
+    "seed": "%s-%s" % (P, SN),
     "summary": meta.get("summary"),
     "needs": meta.get("needs"),
     "files_changed": meta.get("files_changed"),
@@ -41,14 +42,14 @@ out = {
              "author_cmd": meta.get("demo_cmd"),
              "note": "C06-2 was run with --no-default-features --features serde (pure-Rust backend); C18-1/2 with the author's two-backend command" if P in ("C06", "C18") else None},
     "confirmed_by_me": {
-        "where": "scratch worktree /tmp/mut/%s at the pinned /repo HEAD (removed afterwards)" % P,
+        "where": "scratch worktree %s/%s at /repo HEAD (removed afterwards)" % (os.environ.get("MUT_W", "/tmp/mut"), P),
         "ran": ["git apply patch.diff", "cargo build --offline", "cargo build --offline --no-default-features --features serde",
                 "cargo test --workspace --no-fail-fast --offline", "demo with the change", "git checkout -- . ; demo without the change"],
         "build_default_rc": conf["build_default_rc"], "build_rust_backend_rc": conf["build_rust_rc"],
         "suite_rc_with_change": conf["suite_rc"], "suite_with_change": conf["suite"],
         "demo_with_change_rc": conf["demo_with_change_rc"], "demo_with_change": conf["demo_with_change"],
         "demo_without_change_rc": conf["demo_without_change_rc"], "demo_without_change": conf["demo_without_change"]},
-    "history": json.load(open("/verif/work/seed_notes.json")).get("%s-%s" % (P, N)) if os.path.exists("/verif/work/seed_notes.json") else None,
+    "history": json.load(open("/verif/seeded/notes.json")).get("%s-%s" % (P, SN)) if os.path.exists("/verif/seeded/notes.json") else None,
     "detection": det,
     "detected": any(d["exit"] == 1 and d["violation_lines"] > 0 for d in det),
 }
